@@ -38,6 +38,7 @@ type Env struct {
 	pattern *Expr
 	// at a call site the state in which the callee acquired its lock is unknown to the caller
 	lockedSnap *HeapSnap
+	visited    string // SMT array: keys already visited by the map iteration of the current loop
 	calleeAnch map[string]*Anchor
 	calleeFn   *ssa.Function
 }
@@ -81,6 +82,9 @@ func (e *Env) clockNow() Term {
 func (e *Env) loadAt(a Addr, t types.Type) Val {
 	if g, ok := a.(GlobAddr); ok && theEngine != nil {
 		if v, ok := theEngine.immutableGlobal(g.G); ok {
+			return v
+		}
+		if v, ok := theEngine.literalGlobal(e.st, g.G); ok {
 			return v
 		}
 	}
@@ -169,6 +173,14 @@ func (e *Env) eval(x *Expr) TV {
 			decl = append(decl, fmt.Sprintf("(%s %s)", name, srt))
 		}
 		body := n.evalBool(x.Args[0])
+		if len(x.Args) > 1 {
+			var ps []string
+			for _, pe := range x.Args[1:] {
+				pt := n.eval(pe)
+				ps = append(ps, e.st.flatten(pt.V)[0].S)
+			}
+			return scBool(Term{fmt.Sprintf("(%s (%s) (! %s :pattern (%s)))", x.Op, strings.Join(decl, " "), body.S, strings.Join(ps, " ")), SBool})
+		}
 		if e.pattern != nil {
 			pt := n.eval(e.pattern)
 			ps := e.st.flatten(pt.V)
@@ -746,6 +758,11 @@ func (e *Env) call(x *Expr) TV {
 	case "unixTime":
 		// time.Unix(sec, 0) as integer nanoseconds
 		return scInt(Add(unixEpochT, App(SInt, "*", e.term(args[0]), IntLit(1000000000))))
+	case "visited":
+		if e.visited == "" {
+			sfail("visited(k) outside a map-range loop")
+		}
+		return scBool(Term{fmt.Sprintf("(select %s %s)", e.visited, e.term(args[0]).S), SBool})
 	case "fnid":
 		// identity of a package-level function used as a value
 		if args[0].Op != "str" || e.pkg == nil {
@@ -806,6 +823,8 @@ func specSort(ty string) (Sort, types.Type) {
 		return SBool, types.Typ[types.Bool]
 	case "string", "bytes":
 		return SStr, types.Typ[types.String]
+	case "header":
+		return SInt, types.NewMap(types.Typ[types.String], types.NewSlice(types.Typ[types.String]))
 	}
 	return SInt, nil
 }
